@@ -296,3 +296,9 @@ func AnyStringAtom(name string, k int) string {
 
 // Iff is logical equivalence (term builder).
 func Iff(a, b bool) bool { return a == b }
+
+// CallAnon runs an anonymous function of the package under test as a unit
+// (engine only: there is no native way to reach a closure body).
+func CallAnon(name string, freeVars []interface{}, args ...interface{}) {
+	panic("zzverif: CallAnon is engine-only")
+}
